@@ -20,7 +20,15 @@ def sh(cmd, cwd=None, check=False, timeout=900):
 
 def main():
     pid, var = sys.argv[1], sys.argv[2]
-    src = "/tmp/mut/%s.out/%s" % (pid, var)
+    rnd = 1
+    if "--round" in sys.argv:
+        rnd = int(sys.argv[sys.argv.index("--round") + 1])
+    global PIN
+    srcroot = "/tmp/mut" if rnd == 1 else "/tmp/mut%d" % rnd
+    if rnd > 1:
+        # later rounds were written against the /repo HEAD of that time (recorded in PIN_ROUND)
+        PIN = open(srcroot + "/PIN").read().strip()
+    src = "%s/%s.out/%s" % (srcroot, pid, var)
     meta = json.load(open(src + "/meta.json"))
     demo = meta.get("demo", "")
     demo_files = [f for f in os.listdir(src) if f.endswith("_test.go") or f == "main.go"]
@@ -72,17 +80,18 @@ def main():
     for f in demo_files:
         os.remove(os.path.join(dest, "zz_seed_" + f))
     ok = rc1 != 0 and rc2 == 0 and ("FAIL" in out1 or "panic" in out1) and "[build failed]" not in out1
-    print("%s/%s: with patch rc=%d, without rc=%d, baseline PASS kept=%d -> %s" % (pid, var, rc1, rc2, len(base), "CONFIRMED" if ok else "NOT CONFIRMED"))
+    print("%s/%s (round %d): with patch rc=%d, without rc=%d, baseline PASS kept=%d -> %s" % (pid, var, rnd, rc1, rc2, len(base), "CONFIRMED" if ok else "NOT CONFIRMED"))
     if not ok:
         print("--- with patch:\n" + out1[-1500:] + "\n--- without:\n" + out2[-1500:])
         raise SystemExit(1)
-    dst = "/verif/seeded/%s%s" % (pid, var)
+    outvar = var if rnd == 1 else chr(ord(var) + 2 * (rnd - 1))
+    dst = "/verif/seeded/%s%s" % (pid, outvar)
     os.makedirs(dst, exist_ok=True)
     shutil.copy(src + "/patch.diff", dst + "/patch.diff")
     for f in demo_files:
         shutil.copy(os.path.join(src, f), os.path.join(dst, f + ".txt"))  # .txt: not compiled by anything under /verif
     meta2 = {
-        "property": pid, "variant": var,
+        "property": pid, "variant": outvar, "round": rnd,
         "summary": meta.get("summary"), "site": meta.get("site"), "needs": meta.get("needs"),
         "touched": touched,
         "demo": {"copy_to": pkgdir, "files": [f + ".txt (rename to *_test.go)" for f in demo_files], "command": cmd},
